@@ -43,9 +43,14 @@ type Spec struct {
 	// OnState, if set, is called for every new state (after the oracles) inside the worker.
 	OnState func(w *World, hist []Op) *Violation
 	Workers int
-	Weight  int            // share of the time budget (default 1)
-	KF      *KnownFindings // set by runSpecs: deviation oracles consult it to step over known findings inside a state
-	Strict  bool           // SaveVersion on an existing version: also require the storage to be byte-identical afterwards
+	Label   string // free text shown with violations (e.g. the legacy fixture)
+	Weight  int    // share of the time budget (default 1)
+	// Init, if set, builds the initial world (e.g. on a pre-populated legacy store) instead of NewWorld(Cfg).
+	Init func(s *Spec) *World
+	// BaseModel, if set, is the model of the initial state built by Init (used by matchers that replay the model).
+	BaseModel *Model
+	KF        *KnownFindings // set by runSpecs: deviation oracles consult it to step over known findings inside a state
+	Strict    bool           // SaveVersion on an existing version: also require the storage to be byte-identical afterwards
 }
 
 type RunStats struct {
@@ -122,7 +127,12 @@ func histString(h []Op) string {
 // replay builds a fresh world and applies hist; a violation during replay is a machinery error unless
 // allowViol is set (used when re-running a recorded violation).
 func replay(s *Spec, hist []Op) (*World, *Violation) {
-	w := NewWorld(s.Cfg)
+	var w *World
+	if s.Init != nil {
+		w = s.Init(s)
+	} else {
+		w = NewWorld(s.Cfg)
+	}
 	w.Strict = s.Strict
 	for i, o := range hist {
 		if v := w.Apply(o); v != nil {
@@ -162,7 +172,7 @@ func hashKVs(h interface{ Write([]byte) (int, error) }, kvs []vstore.KV) {
 // modelKey digests every model fact (also those invisible in the implementation).
 func modelKey(m *Model) [32]byte {
 	h := sha256.New()
-	fmt.Fprintf(h, "iv%d,%v,%v first%d latest%d cur%d gen%d|", m.IV, m.IVSet, m.ivArm, m.First, m.Latest, m.Cur, m.Genesis)
+	fmt.Fprintf(h, "iv%d,%v,%v first%d latest%d cur%d gen%d leg%d|", m.IV, m.IVSet, m.ivArm, m.First, m.Latest, m.Cur, m.Genesis, m.LegacyLatest)
 	for _, v := range m.Versions() {
 		fmt.Fprintf(h, "v%d:%x;", v, ref.Hash(m.Roots[v], v))
 		for _, p := range m.pairs(m.Conts[v]) {
@@ -291,7 +301,7 @@ func Explore(s *Spec, kf *KnownFindings) (*RunStats, *Found) {
 				}
 				hist := append(append(make([]Op, 0, len(frontier[i])+1), frontier[i]...), r.op)
 				if r.v != nil {
-					if id := kf.Match(s.ID, r.v, hist, s.Cfg); id != "" {
+					if id := kf.MatchSpec(s, r.v, hist); id != "" {
 						st.Known[id]++
 						kf.Note(id, s, hist, r.v)
 						if !(kf.ExpandOK(id) && r.haveKey) {
